@@ -7,6 +7,7 @@ import (
 	"net/http/httptest"
 	"os"
 	"strings"
+	"sync"
 	"time"
 
 	"github.com/ErdemOzgen/blackdagger/internal/frontend/middleware"
@@ -92,6 +93,10 @@ func c17Presents(cfg c17Cfg, h string, present bool) (token, basic bool) {
 }
 
 func c17Body(c *core.Ctx) {
+	if c.Mode == "concurrent" {
+		c17Concurrent(c)
+		return
+	}
 	big := !c.Quick()
 	secrets := []c17Cfg{
 		{User: "admin", Pass: "s3cret", Token: "tok-ABC.123_~"},
@@ -153,6 +158,93 @@ func c17Body(c *core.Ctx) {
 			}
 			idx++
 		}
+	}
+}
+
+// c17Concurrent: the same chain under concurrent traffic. Client goroutines send
+// requests with valid and with secret-less credentials at the same time; each
+// request carries its own id so that the sentinel can attribute what reached it.
+func c17Concurrent(c *core.Ctx) {
+	kinds := []struct {
+		name         string
+		basic, token bool
+	}{{"basic", true, false}, {"token", false, true}, {"both", true, true}}
+	rounds := c.Pick(40000, 600000)
+	if c.Race {
+		rounds = c.Pick(8000, 100000)
+	}
+	for idx, k := range kinds {
+		if !c.Mine(idx) {
+			continue
+		}
+		cfg := c17Cfg{Name: k.name, User: "admin", Pass: "s3cret", Token: "tok-ABC.123_~", HasBasic: k.basic, HasToken: k.token}
+		c.Begin(idx, cfg)
+		var reached sync.Map // request id -> true
+		sentinel := http.HandlerFunc(func(w http.ResponseWriter, r *http.Request) {
+			reached.Store(r.Header.Get("X-Verif-Id"), true)
+			w.WriteHeader(299)
+		})
+		c17Setup(cfg, http.HandlerFunc(func(w http.ResponseWriter, r *http.Request) { w.WriteHeader(298) }))
+		h := middleware.SetupGlobalMiddleware(sentinel)
+		var valid []string
+		if k.basic {
+			valid = append(valid, "Basic "+b64(cfg.User+":"+cfg.Pass))
+		}
+		if k.token {
+			valid = append(valid, "Bearer "+cfg.Token)
+		}
+		invalid := []string{"\x00none", "Basic " + b64(cfg.User+":wrong"), "Basic " + b64("nobody:"), "Basic " + b64(cfg.User+":"), "Bearer wrong", "Bearer ", "Basic " + b64("x:"+cfg.Pass), "Bearer " + cfg.Pass}
+		var mu sync.Mutex
+		var bad []string
+		var wg sync.WaitGroup
+		const workers = 12
+		for w := 0; w < workers; w++ {
+			wg.Add(1)
+			go func(w int) {
+				defer wg.Done()
+				for i := 0; i < rounds/workers; i++ {
+					id := fmt.Sprintf("%d-%d", w, i)
+					good := w%2 == 0
+					hv := invalid[(i+w)%len(invalid)]
+					if good {
+						hv = valid[i%len(valid)]
+					}
+					req := httptest.NewRequest([]string{"GET", "POST", "DELETE"}[i%3], "http://h/api/v1/dags", nil)
+					req.Header.Set("X-Verif-Id", id)
+					if hv != "\x00none" {
+						req.Header.Set("Authorization", hv)
+					}
+					rec := httptest.NewRecorder()
+					h.ServeHTTP(rec, req)
+					_, got := reached.Load(id)
+					switch {
+					case good && (!got || rec.Code == http.StatusUnauthorized):
+						mu.Lock()
+						bad = append(bad, fmt.Sprintf("rejected-valid-concurrent:%s|request %s with valid credentials %q got status %d under concurrent traffic", cfg.Name, id, hv, rec.Code))
+						mu.Unlock()
+					case !good && (got || rec.Code != http.StatusUnauthorized):
+						mu.Lock()
+						bad = append(bad, fmt.Sprintf("passed-without-secret-concurrent:%s|request %s with Authorization %q reached the API handler (status %d) while valid requests were in flight", cfg.Name, id, hv, rec.Code))
+						mu.Unlock()
+					}
+				}
+			}(w)
+		}
+		wg.Wait()
+		c.Eval(int64(rounds / workers * workers))
+		c.Count("obligations", int64(rounds/workers*workers))
+		c.Count("concurrent_requests", int64(rounds/workers*workers))
+		seen := map[string]bool{}
+		for _, b := range bad {
+			key, what, _ := strings.Cut(b, "|")
+			if !seen[key] {
+				seen[key] = true
+				c.Violate(idx, key, what, map[string]any{"config": cfg, "workers": workers})
+			}
+		}
+		c.DistinctAdd(int64(len(valid)+len(invalid)) * 3)
+		c.Sample(map[string]any{"concurrent": cfg, "workers": workers, "requests": rounds})
+		c.End(idx)
 	}
 }
 
@@ -331,10 +423,12 @@ func c17Assembled(c *core.Ctx, idx int, cfg, other c17Cfg) {
 func init() {
 	core.Register(&core.Prop{ID: "C17", Level: "exploration", Body: c17Body, CrashKey: crashKeyGeneric, MinDistinct: 1000,
 		Passes: func(tier string) []core.Pass {
-			return []core.Pass{{Name: "main", Mode: "controlled", Shards: 16, Timeout: 30 * time.Minute}}
+			return []core.Pass{{Name: "main", Mode: "controlled", Shards: 16, Timeout: 30 * time.Minute},
+				{Name: "concurrent", Mode: "concurrent", Shards: 3, Timeout: 30 * time.Minute},
+				{Name: "concurrent-race", Mode: "concurrent", Race: true, Shards: 3, Timeout: 30 * time.Minute}}
 		},
 		Exhaustive: func(tier string) bool { return true },
-		Rule:       "Complete grid (exhaustive over the grid, not over all strings): {none, basic, token, both} x 7 secret triples (31 in thorough) incl. empty, one-character, token==user, colon-bearing and non-ASCII secrets x {no base path, /bd} x 7 methods x 15 path shapes (with and without the base path) x ~75 Authorization shapes (absent, empty, scheme only, standard forms, case/spacing/tab variants, trailing junk, secret under the other scheme, bare secret, truncated/extended/wrong-case/swapped/partially-correct credentials, bad base64, other encodings, other schemes), through middleware.Setup + SetupGlobalMiddleware(sentinel) with httptest. Each request is classified by computed predicates, not by construction: must-pass (no auth, or exactly `Basic base64(user:password)` / `Bearer token`), must-reject (no whitespace/comma-separated field equals the token and none decodes, in any base64 alphabet, to user:password) => 401 and sentinel not reached, either (secret present in non-standard form; accepted forms are listed in evidence), non-API path => sentinel not reached. Second harness: the assembled go-swagger API over a real store; every must-reject header x 7 mutating/reading requests must be 401 with the byte-level dump of the DAG/history/flag directories unchanged; positive control with valid credentials. distinct_nontrivial = number of distinct (config, method, path, header) grid points, counted by enumeration.",
+		Rule:       "Complete grid (exhaustive over the grid, not over all strings): {none, basic, token, both} x 7 secret triples (31 in thorough) incl. empty, one-character, token==user, colon-bearing and non-ASCII secrets x {no base path, /bd} x 7 methods x 15 path shapes (with and without the base path) x ~75 Authorization shapes (absent, empty, scheme only, standard forms, case/spacing/tab variants, trailing junk, secret under the other scheme, bare secret, truncated/extended/wrong-case/swapped/partially-correct credentials, bad base64, other encodings, other schemes), through middleware.Setup + SetupGlobalMiddleware(sentinel) with httptest. Each request is classified by computed predicates, not by construction: must-pass (no auth, or exactly `Basic base64(user:password)` / `Bearer token`), must-reject (no whitespace/comma-separated field equals the token and none decodes, in any base64 alphabet, to user:password) => 401 and sentinel not reached, either (secret present in non-standard form; accepted forms are listed in evidence), non-API path => sentinel not reached. Second harness: the assembled go-swagger API over a real store; every must-reject header x 7 mutating/reading requests must be 401 with the byte-level dump of the DAG/history/flag directories unchanged; positive control with valid credentials. Concurrent passes (plain and under the race detector): 12 client goroutines send 40000 (600000) requests per configuration at the same time, half with valid and half with secret-less credentials, each tagged with its own id; every response is judged as in the grid (a secret-less request that reaches the handler while valid ones are in flight is a violation). distinct_nontrivial = number of distinct (config, method, path, header) grid points, counted by enumeration.",
 		Assumptions: []string{"the outcome for a correct secret presented in a non-standard form is not judged (the statement says 'only if')",
 			"OPTIONS is answered by the CORS layer: for must-pass only 'not 401' is demanded"}})
 }
